@@ -38,7 +38,11 @@ class LegacyOKPort(PortExtras):
         text = data.decode("ascii")
         self.writes.append(text)
         name = req_name(text).lower()
-        if name == "v":
+        if name == "v" and self.version is None:
+            self.q.append("EBBv13_and_above EB\r\n")               # identifies itself, reports no version
+        elif name == "v" and self.version == "":
+            pass                                                     # silent: the version query times out
+        elif name == "v":
             self.q.append("EBBv13_and_above EB Firmware Version %s\r\n" % self.version)
         elif name in NO_OK:
             self.q.append("PI,1\r\n" if name == "pi" else "1\r\n")
